@@ -1196,8 +1196,14 @@ func (e *c17Env) scanRun(c *runCase, o *runOutcome) {
 				}
 				judged = true
 				v := verdict{pred: "secret_in_sink", phase: "n/a", line: "n/a", form: form}
+				if os.Getenv("C17_DEBUG") != "" {
+					fmt.Fprintf(os.Stderr, "DEBUG %s %s line %q noEcho=%v env=%q simout=%q\n", rel, kind, line, o.noEcho, o.Env, o.SimOut)
+				}
 				switch {
 				case kind == "password" && devSSH[c.Dev] && (!o.noEcho || o.Env != "" && echoFlavour) && !secretOutsideDeviceText(line, o.SimOut, secret, c.user()):
+					if os.Getenv("C17_DEBUG") != "" {
+						fmt.Fprintf(os.Stderr, "DEBUG excused line %q\n", line)
+					}
 					// the device echoed what was typed at its password prompt: outside the guarantee
 					// (hypothesis noEchoAtPasswordPrompt of ssh_echo_device_independent) — but only where the
 					// sink shows text the device wrote; a password the code itself put next to it is judged
